@@ -186,14 +186,14 @@ func init() {
 		typeFld := w.Field("recovery", "LogRecord", "LogRecordType")
 		subj := func(v ssa.Value) bool { return fieldLoadOf(v, typeFld) }
 		emitted := emittedTypes(w)
-		r.Floor("emitted record types", len(emitted), 12)
+		r.Floor("emitted record types", len(emitted), 10)
 		headerOnly := map[string]bool{"BEGIN": true, "COMMIT": true, "ABORT": true, "GracefulShutdown": true}
 		writer := caseSet(w.Fn("recovery", "LogManager", "AppendLogRecord"), subj)
 		reader := caseSet(w.Fn("recovery/log_recovery", "LogRecovery", "DeserializeLogRecord"), subj)
 		redo := caseSet(w.Fn("recovery/log_recovery", "LogRecovery", "Redo"), subj)
 		r.Floor("writer cases", len(writer), 8)
 		r.Floor("reader cases", len(reader), 8)
-		r.Floor("redo cases", len(redo), 11)
+		r.Floor("redo cases", len(redo), 9)
 		var vals []int64
 		for v := range emitted {
 			vals = append(vals, v)
